@@ -32,3 +32,8 @@ SETUP_CONFIGS = ["default", "release"]
 
 def flags(name):
     return CONFIGS[name]["flags"]
+
+# serde configurations (harness feature serde-suite pulls serde_json / ciborium / postcard)
+reg("serde", F("tlsh-default", "serde-suite"), flags=[15, 16, 18, 19, 21, 34])
+reg("serde-strict", F("tlsh-default", "serde-suite", "f-strict-parser"), flags=[1, 15, 16, 18, 19, 21, 34])
+reg("serde-buffered", F("tlsh-default", "serde-suite", "f-serde-buffered"), flags=[15, 16, 18, 19, 21, 34])
